@@ -41,6 +41,12 @@ var checkGuardedDeleteQ = pattern.MustParse(`
 
 func run(pass *analysis.Pass) (any, error) {
 	for node, m := range code.Matches(pass, checkGuardedDeleteQ) {
+		// The map and key expressions are evaluated twice when the key
+		// exists; removing the guard would evaluate them once.
+		if code.MayHaveSideEffects(pass, m.State["m"].(ast.Expr), nil) ||
+			code.MayHaveSideEffects(pass, m.State["key"].(ast.Expr), nil) {
+			continue
+		}
 		report.Report(pass, node, "unnecessary guard around call to delete",
 			report.ShortRange(),
 			report.FilterGenerated(),
